@@ -70,14 +70,14 @@ type Result struct {
 }
 
 type Finding struct {
-	ID       string `json:"id"`
-	Property string `json:"property"`
-	Status   string `json:"status"` // open | fixed
-	What     string `json:"what"`
-	Witness  string `json:"witness"`
-	Class    string `json:"class,omitempty"`
-	Match    string `json:"match,omitempty"` // regexp over the violation detail (open findings only)
-	Commit   string `json:"commit,omitempty"`
+	ID       string   `json:"id"`
+	Property string   `json:"property"`
+	Status   string   `json:"status"` // open | fixed
+	What     string   `json:"what"`
+	Witness  string   `json:"witness"`
+	Class    string   `json:"class,omitempty"`
+	Match    string   `json:"match,omitempty"` // regexp over the violation detail (open findings only)
+	Commit   string   `json:"commit,omitempty"`
 	Also     []string `json:"also,omitempty"` // further properties whose checks can run into this finding
 }
 
@@ -662,13 +662,18 @@ func check(args []string) {
 	}
 }
 
+const staleSuffix = "-after-stale-cached-node"
+
 func matches(f Finding, class, detail string) bool {
 	if f.Class != "" {
 		cre, err := regexp.Compile("^(?:" + f.Class + ")$")
 		if err != nil {
 			die(2, "known_findings.json: bad class regexp in %s: %v", f.ID, err)
 		}
-		if !cre.MatchString(class) {
+		// a run in which the node cache served a modified node gets a class
+		// suffix (sim/prog.go staleSuffix); findings recorded by symptom alone
+		// match with or without it
+		if !cre.MatchString(class) && !(strings.HasSuffix(class, staleSuffix) && cre.MatchString(strings.TrimSuffix(class, staleSuffix))) {
 			return false
 		}
 	}
